@@ -301,7 +301,7 @@ def write_evidence(ctx: Ctx, report: Report, wall_s: float, n_new: int, n_known:
         "known_findings_matched": n_known,
     }
     _poor_mans_validate(ev)
-    tmp = path + ".tmp"
+    tmp = f"{path}.{os.getpid()}.tmp"
     with open(tmp, "w") as f:
         json.dump(ev, f, indent=1, sort_keys=True)
         f.write("\n")
